@@ -1,6 +1,6 @@
 (* C06 correspondence: cases written by harness/src/c06.rs. *)
 From Coq Require Import List NArith Bool.
-From SNT Require Export Base.Report Decoder.CmdTok Decoder.SgrRef.
+From SNT Require Export Base.Report Decoder.CmdTok Decoder.SgrRef Decoder.History.
 Import ListNotations.
 Local Open Scope N_scope.
 
@@ -42,21 +42,6 @@ Fixpoint chunk_at (cuts : list nat) (bytes : list N) : list (list N) :=
   | n :: r => firstn n bytes :: chunk_at r (skipn n bytes)
   end.
 
-Definition render_item (h : hitem) : list N :=
-  match h with
-  | HSgr p => [27; 91] ++ p ++ [109]
-  | HText cs => concat (map utf8_encode cs)
-  end.
-Definition render (hist : list hitem) : list N := concat (map render_item hist).
-
-Definition text_ok (h : hitem) : bool :=
-  match h with
-  | HSgr _ => true
-  | HText cs => forallb (fun c => scalar_ok c && negb (c =? 27)) cs
-  end.
-Definition hist_wf (hist : list hitem) : bool :=
-  forallb (fun h => text_ok h && match h with HSgr p => sgr_wf p | _ => true end) hist.
-
 Definition fm_is_empty (m : face_modify) : bool := face_modify_eqb m fm_default.
 
 Definition opaque (c : option rgba) : bool :=
@@ -64,10 +49,6 @@ Definition opaque (c : option rgba) : bool :=
   | Some (RGBA r g b a) => (r <? 256) && (g <? 256) && (b <? 256) && (a =? 255)
   | None => true
   end.
-
-(* the rendition a Face command asks for, minus what a modification record cannot say *)
-Definition expressible (r : rface) : rface :=
-  mkR (r_fg r) (r_bg r) (r_ul r) (r_bold r) (r_italic r) (r_blink r) false (r_strike r).
 
 Inductive c06_case :=
 (* encode `cmd` (true colour), decode the bytes cut at `cuts`, apply the first decoded
